@@ -35,15 +35,16 @@ RULE = (
 ASSUMPTIONS = ["x64; first use = 2-step fixed-grid solve, one loss evaluation or one estimator call"]
 REQUIRED_LABELS = ["entry:output_scale", "entry:is_exact", "entry:tcoeffs", "entry:tcoeffs_std", "entry:loss_std", "entry:plain_function", "entry:lift",
                    "entry:exponential_order", "entry:error_shape", "entry:ensembles", "entry:warning", "entry:transition_scale", "valid_twin_ok",
-                   "ctor:wiener", "ctor:wiener_diffuse", "ctor:exponential", "ctor:wiener+diffuse_derivatives", "pinned:sweep"]
+                   "ctor:wiener", "ctor:wiener_diffuse", "ctor:exponential", "ctor:wiener+diffuse_derivatives", "pinned:sweep",
+                   "generic:valid_shape", "generic:invalid_shape"]
 
 ENTRIES = {
-    "output_scale": ["extra_axis", "wrong_length", "scalar_for_vector", "vector_for_scalar", "length_one", "tree_structure"],
-    "transition_scale": ["extra_axis", "wrong_length", "vector_for_scalar", "length_one"],
-    "is_exact": ["int_flags", "float_flags", "wrong_length", "wrong_leaf_shape", "tree_structure", "extra_coefficient"],
+    "output_scale": ["extra_axis", "wrong_length", "scalar_for_vector", "vector_for_scalar", "length_one", "tree_structure", "generic_shape"],
+    "transition_scale": ["extra_axis", "wrong_length", "vector_for_scalar", "length_one", "generic_shape"],
+    "is_exact": ["int_flags", "float_flags", "wrong_length", "wrong_leaf_shape", "tree_structure", "extra_coefficient", "generic_shape"],
     "tcoeffs": ["array_instead_of_list", "ragged_leaves", "not_iterable"],
-    "tcoeffs_std": ["tree_structure_same_size", "wrong_length", "vector_for_scalar", "extra_axis"],
-    "loss_std": ["fewer_times", "extra_axis", "wrong_dim", "scalar", "tree_structure", "terminal_wrong_shape"],
+    "tcoeffs_std": ["tree_structure_same_size", "wrong_length", "vector_for_scalar", "extra_axis", "generic_shape"],
+    "loss_std": ["fewer_times", "extra_axis", "wrong_dim", "scalar", "tree_structure", "terminal_wrong_shape", "generic_shape", "generic_shape_terminal"],
     "plain_function": ["ts0", "ts1", "residual_gets_ode", "ts0_gets_residual", "jetexpand", "prior_exponential", "posterior_is_marginal", "matfree_residual"],
     "lift": ["negative", "too_large", "non_int"],
     "exponential_order": ["too_low", "too_high"],
@@ -60,7 +61,13 @@ def _case(draw):
     fact = draw(st.sampled_from(gen.FACTS))
     n = draw(st.integers(2, 4))
     d = draw(st.integers(2, 3))
-    return dict(entry=entry, op=op, fact=fact, n=n, d=d, which=draw(st.integers(0, 3)), variant=draw(st.integers(0, 2)))
+    case = dict(entry=entry, op=op, fact=fact, n=n, d=d, which=draw(st.integers(0, 3)), variant=draw(st.integers(0, 2)))
+    if op.startswith("generic_shape"):
+        # an arbitrary shape (rank 0..3, axes from the sizes that occur in the problem and their neighbours): whether it is valid
+        # is decided by the acceptance model in _valid_shapes(); valid shapes must work, every other shape must be rejected
+        sizes = sorted({1, 2, 3, d, d + 1, n})
+        case["shape"] = draw(st.lists(st.sampled_from(sizes), min_size=0, max_size=3))
+    return case
 
 
 def strategy(ctx):
@@ -83,6 +90,10 @@ def pinned_cases(ctx):
         if ctx.tier == "quick":
             w, v = (h >> 8) % 4, (h >> 12) % 3
         case = dict(entry=e, op=o, fact=f, n=2 + h % 3, d=2 + (h >> 4) % 2, which=w, variant=v)
+        if o.startswith("generic_shape"):
+            sizes = sorted({1, 2, 3, case["d"], case["d"] + 1, case["n"]})
+            rank = (h >> 16) % 4
+            case["shape"] = [sizes[(h >> (20 + 4 * k)) % len(sizes)] for k in range(rank)]
         out.append(("sweep", case))
     return out
 
@@ -149,6 +160,26 @@ def _scale_valid(fact, d):
     return jnp.asarray(2.0) if fact == "isotropic" else jnp.ones((d,)) * 2.0
 
 
+def _valid_shapes(field, fact, d, N=3):
+    """Acceptance model for array-valued fields, transcribed from the library's checks and messages."""
+    iso = fact == "isotropic"
+    return {
+        "output_scale": [()] if iso else [(d,)],                      # one scale (isotropic) / one per state entry
+        "transition_scale": [(d,)] if fact == "blockdiag" else [()],  # shape of prototype_output_scale_calibrated()
+        "is_exact": [()] if iso else [(), (d,)],                      # a flag per coefficient, or per entry of the coefficient
+        "tcoeffs_std": [()] if iso else [(d,)],
+        "loss_std": [(N,)] if iso else [(N, d)],
+        "loss_std_terminal": [()] if iso else [(d,)],
+    }[field]
+
+
+def _broadcastable(a, b):
+    try:
+        return np.broadcast_shapes(tuple(a), tuple(b)) == tuple(b)
+    except ValueError:
+        return False
+
+
 def _attempt(fn):
     """Run fn; returns (raised: bool, description)."""
     with warnings.catch_warnings():
@@ -175,6 +206,7 @@ def check_case(case):
     res.label(f"entry:{entry}", f"op:{entry}/{op}", f"fact:{fact}")
     ssm = lib.ssm(fact)
     vf, tcoeffs = _problem(n, d)
+    generic = None    # (field, shape) of a generic-shape case: validity comes from the acceptance model
     valid = None      # callable: the uncorrupted twin (must work)
     corrupt = None    # callable: the corrupted call (must raise)
     broadcastable = False
@@ -198,6 +230,9 @@ def check_case(case):
         elif op == "length_one":
             bad = jnp.ones((1,)) * 2.0
             broadcastable = True
+        elif op == "generic_shape":
+            bad = jnp.ones(tuple(case["shape"])) * 2.0
+            generic = ("output_scale", tuple(case["shape"]))
         else:
             bad = [good]
         cname, build = _ctor(ssm, fact, n, d, case["which"], entry)
@@ -215,6 +250,9 @@ def check_case(case):
         elif op == "vector_for_scalar":
             bad = jnp.ones((d,))
             skip = "block-diagonal calibrated scales are vectors" if fact == "blockdiag" else None
+        elif op == "generic_shape":
+            bad = jnp.ones(tuple(case["shape"]))
+            generic = ("transition_scale", tuple(case["shape"]))
         else:
             bad = jnp.ones((1,))
             skip = "length-one vector is the valid shape for d=1" if (fact == "blockdiag" and d == 1) else None
@@ -238,6 +276,10 @@ def check_case(case):
             broadcastable = True
         elif op == "tree_structure":
             bad = [[g] for g in good]
+        elif op == "generic_shape":
+            k = case["variant"] % n  # one flag leaf gets the drawn shape, the others stay valid
+            bad = [jnp.ones(tuple(case["shape"]), dtype=bool) if i == k else g for i, g in enumerate(good)]
+            generic = ("is_exact", tuple(case["shape"]))
         else:
             bad = good + [good[0]]
         cname, build = _ctor(ssm, fact, n, d, case["which"], entry)
@@ -279,6 +321,10 @@ def check_case(case):
             bad = [jnp.ones((d,)) * 0.1 for _ in range(n)]
             broadcastable = True
             skip = "only the isotropic model expects scalar leaves" if fact != "isotropic" else None
+        elif op == "generic_shape":
+            k = case["variant"] % n
+            bad = [jnp.ones(tuple(case["shape"])) * 0.1 if i == k else g for i, g in enumerate(good)]
+            generic = ("tcoeffs_std", tuple(case["shape"]))
         else:
             bad = [g[..., None] for g in good] if fact != "isotropic" else [g[None] for g in good]
             broadcastable = True
@@ -314,9 +360,15 @@ def check_case(case):
             broadcastable = True
         elif op == "tree_structure":
             bad = [good]
-        if op == "terminal_wrong_shape":
+        elif op == "generic_shape":
+            bad = jnp.ones(tuple(case["shape"])) * 0.1
+            generic = ("loss_std", tuple(case["shape"]))
+        if op in ("terminal_wrong_shape", "generic_shape_terminal"):
             goodt = good[-1]
             badt = jnp.ones((d,)) * 0.1 if fact == "isotropic" else jnp.asarray(0.1)
+            if op == "generic_shape_terminal":
+                badt = jnp.ones(tuple(case["shape"])) * 0.1
+                generic = ("loss_std_terminal", tuple(case["shape"]))
             broadcastable = True
             valid = lambda: term(data[-1], marginals=last, std=goodt)  # noqa: E731
             corrupt = lambda: term(data[-1], marginals=last, std=badt)  # noqa: E731
@@ -428,9 +480,23 @@ def check_case(case):
         # the uncorrupted twin failed: the harness' idea of a valid call is wrong -> harness error, not a finding
         raise RuntimeError(f"valid twin of {entry}/{op} ({fact}, n={n}, d={d}) raised {desc}")
     res.label("valid_twin_ok")
+    if generic is not None:
+        field, shape = generic
+        ok_shapes = _valid_shapes(field, fact, d)
+        good_shape = ok_shapes[-1]
+        res.nontrivial = shape not in ok_shapes and _broadcastable(shape, good_shape)
+        if shape in ok_shapes:
+            # a documented-acceptable shape: must work like the twin (a library that rejects it is not what C20 is about, but it
+            # would mean the acceptance model is wrong -> harness error rather than a silent pass)
+            raised, desc = _attempt(corrupt)
+            if raised:
+                raise RuntimeError(f"acceptance model says {field} of shape {shape} is valid ({fact}, n={n}, d={d}) but the library raised {desc}")
+            res.label("generic:valid_shape")
+            return res
+        res.label("generic:invalid_shape")
     raised, desc = _attempt(corrupt)
     if not raised:
-        res.violate(f"accepted:{entry}/{op}", f"{entry}/{op} ({fact}, n={n}, d={d}): corrupted input was accepted and {desc}")
+        res.violate(f"accepted:{entry}/{op}", f"{entry}/{op} ({fact}, n={n}, d={d}{', shape=' + str(generic[1]) if generic else ''}): corrupted input was accepted and {desc}")
     return res
 
 
